@@ -1433,6 +1433,9 @@ func TestVerifC04(t *testing.T) {
 							switch e.kind {
 							case "del":
 								removals++
+								if se, ok := end[x]; ok && se.pol == 1 {
+									removals++ // waiting-and-running: a deleted pod may have counted as waiting and as bound (permit_race_bound: 2k)
+								}
 								deleted = true
 							case "unres":
 								removals++
